@@ -58,6 +58,10 @@ type c09Case struct {
 	Ctx    int                `json:"ctx,omitempty"`
 	Hex    string             `json:"hex,omitempty"`
 	Pal    map[int]color.RGBA `json:"palette,omitempty"`
+	// Pos, Len: the colour stood at position Pos of a batch of Len colours (the
+	// position decides ADJ / increment of the SetCReg call that carries it)
+	Pos int `json:"pos,omitempty"`
+	Len int `json:"len,omitempty"`
 }
 
 type c09State struct {
@@ -93,14 +97,26 @@ func c09Replay(w *mc.W, data json.RawMessage) error {
 	st := &c09State{w: w}
 	st.rd.NoPal = true
 	switch cs.Route {
-	case "direct":
-		cols := make([]ivg.Color, len(cs.Colors))
-		for i, c := range cs.Colors {
-			cols[i] = ivg.RGBAColor(c)
+	case "direct", "blend", "palette-index", "creg-ref":
+		n := cs.Len
+		if n <= cs.Pos {
+			n = cs.Pos + 1
 		}
-		st.encodeBatch("direct", cols)
-	case "blend", "palette-index", "creg-ref":
-		st.encodeBatch(cs.Route, []ivg.Color{ivg.BlendColor(cs.Blend[0], cs.Blend[1], cs.Blend[2])})
+		cols := make([]ivg.Color, n)
+		for i := range cols {
+			cols[i] = ivg.RGBAColor(ref.OpaqueBlack)
+		}
+		switch cs.Route {
+		case "direct":
+			cols[cs.Pos] = ivg.RGBAColor(cs.Colors[0])
+		case "blend":
+			cols[cs.Pos] = ivg.BlendColor(cs.Blend[0], cs.Blend[1], cs.Blend[2])
+		case "palette-index":
+			cols[cs.Pos] = ivg.PaletteIndexColor(cs.Blend[0])
+		default:
+			cols[cs.Pos] = ivg.CRegColor(cs.Blend[0])
+		}
+		st.encodeBatch(cs.Route, cols, cs.Pos)
 	case "resolve":
 		st.resolveOne(cs.Blend[0], cs.Blend[1], cs.Blend[2], cs.Ctx)
 	case "decoder":
@@ -122,7 +138,7 @@ func (st *c09State) direct(u int) {
 	cols := make([]ivg.Color, 0, 4096)
 	flush := func() {
 		if len(cols) > 0 {
-			st.encodeBatch("direct", cols)
+			st.encodeBatch("direct", cols, -1)
 			cols = cols[:0]
 		}
 	}
@@ -178,12 +194,12 @@ func (st *c09State) indirect(u int) {
 		for i := 0; i < 256; i++ {
 			cols = append(cols, ivg.PaletteIndexColor(uint8(i)))
 		}
-		st.encodeBatch("palette-index", cols)
+		st.encodeBatch("palette-index", cols, -1)
 		cols = cols[:0]
 		for i := 0; i < 256; i++ {
 			cols = append(cols, ivg.CRegColor(uint8(i)))
 		}
-		st.encodeBatch("creg-ref", cols)
+		st.encodeBatch("creg-ref", cols, -1)
 		cols = cols[:0]
 	}
 	c1s := []int{0x00, 0x7c, 0x7d, 0x7e, 0x7f, 0x80, 0x81, 0xbf, 0xc0, 0xc1, 0xff, 0x30, 0x63, 0x18, 0x90, 0xd0}
@@ -201,20 +217,23 @@ func (st *c09State) indirect(u int) {
 				cols = append(cols, ivg.BlendColor(uint8(t), uint8(c0), uint8(c1)))
 			}
 			if len(cols) >= 4096 {
-				st.encodeBatch("blend", cols)
+				st.encodeBatch("blend", cols, -1)
 				cols = cols[:0]
 			}
 		}
 	}
 	if len(cols) > 0 {
-		st.encodeBatch("blend", cols)
+		st.encodeBatch("blend", cols, -1)
 	}
 }
 
 // expectedOf is what the statement says must come back for a written colour.
 func expectedOf(c ivg.Color) ivg.Color { return c }
 
-func (st *c09State) encodeBatch(route string, cols []ivg.Color) {
+// encodeBatch writes cols through one Encoder and judges every position (only < 0) or
+// just position only. A failure of the whole batch is attributed by re-running it once
+// per position with every other position replaced by opaque black.
+func (st *c09State) encodeBatch(route string, cols []ivg.Color, only int) {
 	w := st.w
 	var e encode.Encoder
 	for i, c := range cols {
@@ -231,33 +250,63 @@ func (st *c09State) encodeBatch(route string, cols []ivg.Color) {
 	w.EvalN(int64(len(cols)))
 	mkCase := func(i int) c09Case {
 		k, d := rec.ColorParts(cols[i])
-		if k == rec.KRGBA {
-			return c09Case{Route: "direct", Colors: []color.RGBA{d}}
+		cs := c09Case{Route: route, Pos: i, Len: len(cols)}
+		switch {
+		case k == rec.KRGBA:
+			cs.Route, cs.Colors = "direct", []color.RGBA{d}
+		case route == "palette-index" || route == "creg-ref":
+			// these batches hold constructor(i) at position i: record the constructor argument
+			cs.Blend = [3]uint8{uint8(i)}
+		default:
+			cs.Blend = [3]uint8{d.R, d.G, d.B}
 		}
-		return c09Case{Route: route, Blend: [3]uint8{d.R, d.G, d.B}}
+		return cs
+	}
+	batchFail := func(key, what string) {
+		if only >= 0 || len(cols) == 1 {
+			w.Fail(key, what, mkCase(max(only, 0)))
+			return
+		}
+		found := w.Failed()
+		tmp := make([]ivg.Color, len(cols))
+		for i := range cols {
+			for j := range tmp {
+				tmp[j] = ivg.RGBAColor(ref.OpaqueBlack)
+			}
+			tmp[i] = cols[i]
+			st.encodeBatch(route, tmp, i)
+		}
+		if !found && !w.Failed() {
+			// no single position reproduces it: record the batch as a whole
+			w.Fail(key+":batch", what, mkCase(len(cols)-1))
+		}
 	}
 	if err != nil {
-		w.Fail(route+":bytes-error", err.Error(), mkCase(0))
+		batchFail(route+":bytes-error", err.Error())
 		return
 	}
 	st.rd.ResetLog()
 	if derr := decode.Decode(&st.rd, out); derr != nil {
-		w.Fail(route+":decode-error", fmt.Sprintf("Decode of encoder output failed: %v", derr), mkCase(0))
+		batchFail(route+":decode-error", fmt.Sprintf("Decode of encoder output failed: %v", derr))
 		return
 	}
 	w.Trace()
 	p := st.ps.Parse(out)
 	if !p.OK {
-		w.Fail(route+":output-malformed", "encoder output rejected by the reference parser: "+p.Reason, mkCase(0))
+		batchFail(route+":output-malformed", "encoder output rejected by the reference parser: "+p.Reason)
 		return
 	}
 	if len(st.rd.Calls) != len(cols)+1 || len(p.Calls) != len(cols)+1 {
-		w.Fail(route+":call-count", fmt.Sprintf("%d colours written, %d calls decoded", len(cols), len(st.rd.Calls)-1), mkCase(0))
+		batchFail(route+":call-count", fmt.Sprintf("%d colours written, %d calls decoded", len(cols), len(st.rd.Calls)-1))
 		return
 	}
 	// measure the form lengths by walking the stream with the reference tables
 	pos := p.MetaLen
 	for i, c := range cols {
+		if only >= 0 && i != only {
+			pos += 1 + []int{1, 2, 3, 4, 3}[(out[pos]-0x80)>>3]
+			continue
+		}
 		got := st.rd.Calls[i+1]
 		want := expectedOf(c)
 		op := out[pos]
